@@ -229,7 +229,11 @@ def _canon_cmp(op, a, b):
         elif (a[0] == "none" and b[0] in ("num", "str", "bool", "tuple", "list", "dict")) or (b[0] == "none" and a[0] in ("num", "str", "bool", "tuple", "list", "dict")):
             res = ("bool", False)
         elif a[0] == "none" or b[0] == "none":
-            res = ("isnone", cb if a[0] == "none" else ca)
+            other_raw = b if a[0] == "none" else a
+            if other_raw[0] == "mcall" and other_raw[2] in ("get_loc", "copy", "dropna", "keys", "items", "values") or other_raw[0] in ("+", "-", "*", "/", "neg", "comp", "new"):
+                res = ("bool", False)  # these never yield None
+            else:
+                res = ("isnone", cb if a[0] == "none" else ca)
         else:
             x, y = sorted([ca, cb], key=repr)
             res = ("is", x, y)
@@ -259,10 +263,21 @@ def _nonarith(e):
 
 
 def neg_atom(c):
-    """Negation of a canonical boolean value, kept canonical."""
+    """Negation of a canonical boolean value, kept canonical (negation normal form: De Morgan pushes `not` inward)."""
     if isinstance(c, tuple) and c:
         if c[0] == "not":
             return c[1]
+        if c[0] in ("and", "or"):
+            other = "or" if c[0] == "and" else "and"
+            items = sorted(set(neg_atom(x) for x in c[1:]), key=repr)
+            flat = []
+            for x in items:
+                if isinstance(x, tuple) and x and x[0] == other:
+                    flat.extend(x[1:])
+                else:
+                    flat.append(x)
+            flat = sorted(set(flat), key=repr)
+            return (other,) + tuple(flat) if len(flat) > 1 else flat[0]
         if c[0] == "bool":
             return ("bool", not c[1])
         if c[0] == "cmp" and c[1] in ("<", "<="):
